@@ -337,6 +337,26 @@ def search(ctx, boost=1, focus=()):
         p = gen(rng, k)
         ctx.oracle_case("cloud", p, run_case("cloud", p), nontrivial=p["kind"] != "clean")
         ctx.count("oracle_" + p["kind"])
+    # shallow lattices given with a candidate list: lattice vectors enclosing slightly LESS than min_angle, candidates slightly
+    # more (so they pass the candidate filter), in every orientation -- including both vectors close to the negative x axis,
+    # where the polar angles jump from +pi to -pi; whatever is returned must respect min_angle
+    for k in range(6 * boost):
+        lim = float(np.pi / 10)
+        true_ang = lim - np.deg2rad(float(rng.choice([1.0, 2.0, 0.5])))
+        cand_ang = lim + np.deg2rad(float(rng.choice([1.0, 1.5, 0.5])))
+        phi = np.deg2rad([172.0, 176.0, 180.0, 184.0, -176.0, float(rng.uniform(-180, 180))][k % 6])
+        L = float(rng.uniform(30, 45))
+
+        def vec(ang):
+            return L * np.array([np.sin(ang), np.cos(ang)])
+        ta, tb = vec(phi - true_ang / 2), vec(phi + true_ang / 2)
+        z = rng.uniform(100, 120, 2)
+        pts = np.array([z] + [z + i * ta + j * tb for i in (-1, 0, 1) for j in (-1, 0, 1) if (i, j) != (0, 0)])
+        p = {"pts": pts, "elev": np.ones(len(pts)), "zero": z, "kind": "shallow", "true_a": ta, "true_b": tb, "tolerance": 3.0,
+             "min_match": 3, "min_angle": lim, "min_delta": 0.0, "max_delta": float("inf"), "min_points": 10,
+             "cand": [vec(phi - cand_ang / 2).tolist(), vec(phi + cand_ang / 2).tolist()]}
+        ctx.oracle_case("cloud", p, run_case("cloud", p), nontrivial=True)
+        ctx.count("oracle_shallow")
     # sparse integer clouds (cheap): the re-matching rounds of the candidate search may re-index the same peaks
     corpus = [[[19, 56], [62, 27], [63, 34], [18, 33], [21, 59], [6, 14]],
               [[5, 41], [37, 18], [5, 6], [22, 23], [60, 50], [21, 29], [35, 8], [33, 4]],
